@@ -27,6 +27,10 @@ def build_scenario(rng: random.Random, mode: str):
     from eudoxia.utils import Priority
 
     tps = rng.choice([1, 2, 4, 5, 10])
+    if mode in ("valid", "mixed", "pressure", "swarm", "susp") and rng.random() < 0.15:
+        # very fine ticks: memory moves in steps of a quarter megabyte and less, pools of a few dozen megabytes.  (Rates of the form
+        # 5 * 2^k keep the quantum Q = 5 / tps GB a power of two, so every memory figure stays an exact float.)
+        tps = rng.choice([10240, 81920])
     huge = False
     U = 4 * tps
     Q = F(5, tps)            # the quantum: 20 units, a quarter of the memory read in one I/O tick; a*Q is an exact float
